@@ -601,6 +601,14 @@ fn build_tera() -> Tera {
             ));
         }
         tpls.push((format!("dec/{}", tf(u)), format!("{{{{ s | b64_decode(url_safe={}) }}}}", tf(u))));
+        // the documented capitalised spellings of the boolean literals (`True` / `False`)
+        let cap = |b: bool| if b { "True" } else { "False" };
+        for p in [false, true] {
+            tpls.push((
+                format!("rt-cap/{}/{}", tf(u), tf(p)),
+                format!("{{{{ s | b64_encode(url_safe={}, padded={}) }}}}|{{{{ s | b64_encode(url_safe={}, padded={}) | b64_decode(url_safe={}) }}}}", cap(u), cap(p), cap(u), cap(p), cap(u)),
+            ));
+        }
     }
     for (n, src) in [
         ("enc/default", "{{ s | b64_encode }}"),
@@ -820,6 +828,20 @@ fn judge_string(tera: &Tera, s: &str, acc: &mut Acc, sample: bool) {
             }
             acc.case(nonempty, if rt.is_ok() { "b64-roundtrip:ok" } else { "b64-roundtrip:not-ok" });
 
+            // the same options spelled `True` / `False` (seeded change C20-13 lexed `True` as false)
+            let cap = engine::render(tera, &format!("rt-cap/{}/{}", tf(u), tf(p)), &ctx);
+            let want_cap = match (&enc, &rt) {
+                (Out::Ok(e), Out::Ok(r)) => Some(format!("{e}|{r}")),
+                _ => None,
+            };
+            if want_cap.is_some() && cap.ok() != want_cap.as_deref() {
+                acc.violation(
+                    "b64-options-capitalised-literals",
+                    format!("options spelled True / False (url_safe={u}, padded={p}) gave {}, spelled true / false {:?}", cap.show(), want_cap),
+                    || json!({"template": format!("{{{{ s | b64_encode(url_safe={}, padded={}) }}}}|...", if u { "True" } else { "False" }, if p { "True" } else { "False" }), "s": s}),
+                );
+            }
+            acc.case(nonempty, "b64-options-capitalised-literals");
             // the same options passed as context variables
             let mut cv = ctx.clone();
             cv.insert_value("u", tera::Value::from(u));
